@@ -74,3 +74,13 @@ claim("C14", "E3-chain", "exploration", "per-transaction pre/post state oracle o
 claim("C15", "E3-chain", "exploration", "per-transaction pre/post state oracle over the tx matrix with fee variants (below/equal/above/zero, unpayable) and failing messages",
       "authenticated transactions must move exactly the declared fee to the fee collector (also when the message then fails, and nothing else in that case), balances are conserved against the supply, transactions rejected before/during authentication move nothing, fees below the requirement are never accepted; held-on-observed",
       TXNOTE, "DESIGN.md §4 C15")
+ENGINES[-2]["serves_properties"] += ["C23", "C28", "C36"]
+claim("C23", "E3-chain", "exploration", "per-transaction record-level oracle (node/application record before vs after every DeliverTx) over generated edit-stake transactions, modern and feature-transition profiles",
+      "edit-stake messages with lower/equal/same-bin/higher amounts, changed chains, URL, output address and delegators, signed by operator, output address or stranger, against staked, jailed and waiting nodes, before and after the output-edit and delegator features activate; the documented immutability rules are asserted on the stored record; held-on-observed",
+      TXNOTE, "DESIGN.md §4 C23")
+claim("C28", "E3-chain", "exploration", "per-transaction oracle on observed pre-state admission conditions and post-state record (reference MaxRelays from stored params) for application stake/transfer",
+      "application stakes around the minimum, the chain limit, the balance and the MaxApplications limit, plus transfers by applications and non-applications; every accepted stake must have satisfied all admission conditions in the observed pre-state and produce the reference record; transfers must move the record intact; held-on-observed",
+      TXNOTE, "DESIGN.md §4 C28")
+claim("C36", "E3-chain", "exploration", "per-transaction oracle over every ACL key read from chain state x signer relation (owner / owner of another key / stranger) plus DAO and upgrade actions",
+      "for every parameter key in the chain's own ACL (41 after feature activation) change-param by owner, owner-of-another-key and stranger: non-owners must leave the params store untouched, owner changes must store exactly the submitted value and nothing else; DAO transfers/burns up to and beyond the balance by owner and non-owner; exhaustive over keys, sampled values/orders",
+      TXNOTE, "DESIGN.md §4 C36")
